@@ -14,6 +14,7 @@ Inductive tsbounds := TsBounds (minimum maximum : option (Z * Z)) (exmin exmax :
 Inductive strlen := StrLen (pattern : option str) (minlen maxlen : option N).
 Inductive keyformat := KFInformal | KFCustom (pattern : str) | KFUuid | KFId62.
 Inductive entitykey := EKNone | EKPrimary | EKForeign (t : tok).
+Inductive entityk := EntityK (k : entitykey) (tenant : option str).
 
 (* the scalar alternatives of schema_j5pb.Field (ScalarSchema.Proto) *)
 Inductive sproto :=
@@ -22,7 +23,7 @@ Inductive sproto :=
 | PFloat (format : N) (rules : option zbounds) (lr : option tok)
 | PBytes (rules : option (option N * option N))
 | PString (format : option str) (rules : option strlen) (lr : option tok)
-| PKey (format : option keyformat) (entity : option entitykey) (lr : option tok)
+| PKey (format : option keyformat) (entity : option entityk) (lr : option tok)
 | PTimestamp (rules : option tsbounds) (lr : option tok)
 | PDate (rules : option strbounds) (lr : option tok)
 | PDecimal (rules : option strbounds) (lr : option tok).
